@@ -6,6 +6,7 @@ use crate::props::gc::GcEngine;
 use crate::props::multi::MultiEngine;
 use crate::props::prefixes::PrefixEngine;
 use crate::props::script::ScriptEngine;
+use crate::props::trees::TreeEngine;
 use crate::props::twin::{TwinEngine, TwinKind};
 use crate::props::hexlab::{ConcatEngine, HexEngine, LabelEngine, LabelEnumEngine};
 use serde_json::Value;
@@ -25,7 +26,7 @@ pub struct Meta {
     pub subs: Vec<Sub>,
 }
 
-pub const PROPS: &[&str] = &["C01", "C02", "C03", "C04", "C05", "C08", "C09", "C10", "C14", "C15", "C16", "C17", "C19"];
+pub const PROPS: &[&str] = &["C01", "C02", "C03", "C04", "C05", "C08", "C09", "C10", "C11", "C12", "C14", "C15", "C16", "C17", "C19"];
 
 pub fn leak(s: &str) -> &'static str {
     Box::leak(s.to_string().into_boxed_str())
@@ -87,6 +88,18 @@ pub fn meta(prop: &str) -> Option<Meta> {
             assumptions: &["differential: original vs clone", "the generator is guided by the reference model"],
             subs: vec![Sub { id: "twin", quick: 4_000, thorough: 800_000 }],
         },
+        "C11" => Meta {
+            level: "exploration",
+            rule: "pairs of trees built through the API: g = tree of 1..8 vertices over generated ids (edges bound in a generated order so that the tree may span several groups; data placed before or after binding, lengths across 8, some already read), optionally after junk groups were created and completely collected (so that merge's next_id() lands on recycled slots); h = tree of 1..8 vertices with labels from a 4-label pool (paths overlap often), data on a generated subset; `left` any vertex of g; half of the cases merge the same h a second time. Oracle: Ok, no panic; h's complete observation unchanged; the result is explained as a graft (every h path exists from left, distinct h vertices on distinct g vertices, exactly the vertices of the lacking paths are created under ids that were absent); after the merge g equals the reference model that performed the equivalent add/bind/put calls (every vertex's kids, data marker) and keeps equalling it through the drain epilogue (data bytes of every read, every collection). Cases whose result would exceed N labels/limits are skipped and counted. Non-trivial: |h|>=3, >=1 shared path, >=1 new vertex, >=1 datum in h, >=1 group collected afterwards.",
+            assumptions: &["reference model + path-wise graft (harness/src/interp.rs graft())", "trees up to 8 vertices, 4 labels, N in 1..=16"],
+            subs: vec![Sub { id: "treegen", quick: 8_000, thorough: 1_600_000 }],
+        },
+        "C12" => Meta {
+            level: "exploration",
+            rule: "left tree and `left` as C11; right graph = generated tree reachable from `right` plus 0..4 generated extras: isolated present vertices with and without data, detached sub-trees (an extra whose parent is another extra), and vertices pointing at `right` (so that `right` is not the root of its graph). Oracle: extras present => merge() returns Err (no panic, never Ok) and the part of the message after 'missed:' names ν<id> of every unreachable present vertex; no extras => Ok (control). Nothing is asserted about g after an Err. Non-trivial: >=1 extra incl. a detached sub-tree of >=2 vertices.",
+            assumptions: &["the reachable part is mergeable within the limits (judged on the reference model); other cases are skipped and counted"],
+            subs: vec![Sub { id: "treegen", quick: 8_000, thorough: 1_600_000 }],
+        },
         "C14" => Meta {
             level: "exploration",
             rule: "programs of <=25 ADD/BIND/PUT commands over literal ids and $variables are generated from model-guided histories and rendered with generated legal formatting (blanks/tabs/newlines around tokens, only blanks before '(', optional ν prefixes, newline-terminated # comments between commands incl. comments containing ';' and parentheses, optional final ';', empty commands, hex in upper/lower case separated by '-', blank or nothing). Well-formed text: graph A = deploy_to(text) and graph B = the direct calls (each variable bound to one next_id() at its first textual use) must have the returned count = number of commands, equal complete observations, and identical traces through the drain epilogue. Half of the cases carry one corruption (character delete/insert/replace, or a structured fault: unknown/lower-case opcode, missing parenthesis, missing argument, non-numeric or overflowing id, odd or non-hex data, label longer than 8, bad α index, missing ';'); an independent strict parser of the documented grammar classifies the corrupted text: well-formed => same equivalence oracle (if in-domain), malformed at command k => Err, no panic, and A equals the first k commands applied directly, unspecified => skipped and counted. Non-trivial: >=3 commands with a variable used twice, a comment and a ν prefix; or a text classified malformed.",
@@ -143,6 +156,8 @@ pub fn run_sub(
         ("C09", "prefixes") => campaign(&PrefixEngine { all_prefixes: tier == Tier::Thorough }, tier, seed, cases, known, inflight, 100),
         ("C10", "twin") => campaign(&TwinEngine { kind: TwinKind::Clone }, tier, seed, cases, known, inflight, max_shrink),
         ("C19", "multi-config") => campaign(&MultiEngine, tier, seed, cases, known, inflight, 600),
+        ("C11", "treegen") => campaign(&TreeEngine { extras: false }, tier, seed, cases, known, inflight, 1500),
+        ("C12", "treegen") => campaign(&TreeEngine { extras: true }, tier, seed, cases, known, inflight, 1500),
         ("C14", "scriptgen") => campaign(&ScriptEngine, tier, seed, cases, known, inflight, 800),
         ("C15", "hexenum") => campaign(&HexEngine, tier, seed, cases, known, inflight, 50),
         ("C16", "concatenum") => {
@@ -168,6 +183,8 @@ pub fn replay(prop: &str, engine: &str, payload: &Value) -> Result<Option<Failur
         ("C09", "prefixes") => Ok(PrefixEngine { all_prefixes: true }.replay(payload)),
         ("C10", "twin") => Ok(TwinEngine { kind: TwinKind::Clone }.replay(payload)),
         ("C19", "multi-config") => Ok(MultiEngine.replay(payload)),
+        ("C11", "treegen") => Ok(TreeEngine { extras: false }.replay(payload)),
+        ("C12", "treegen") => Ok(TreeEngine { extras: true }.replay(payload)),
         ("C14", "scriptgen") => Ok(ScriptEngine.replay(payload)),
         ("C15", "hexenum") => Ok(HexEngine.replay(payload)),
         ("C16", "concatenum") => Ok(ConcatEngine { tolerate: Default::default() }.replay(payload)),
@@ -188,6 +205,8 @@ pub fn run_case(prop: &str, engine: &str, case: &Value) -> Result<Option<Failure
         ("C09", "prefixes") => Ok(PrefixEngine { all_prefixes: true }.run(&serde_json::from_value(case.clone()).map_err(|e| e.to_string())?).failure),
         ("C10", "twin") => Ok(TwinEngine { kind: TwinKind::Clone }.run(&serde_json::from_value(case.clone()).map_err(|e| e.to_string())?).failure),
         ("C19", "multi-config") => Ok(MultiEngine.run(&serde_json::from_value(case.clone()).map_err(|e| e.to_string())?).failure),
+        ("C11", "treegen") => Ok(TreeEngine { extras: false }.run(&serde_json::from_value(case.clone()).map_err(|e| e.to_string())?).failure),
+        ("C12", "treegen") => Ok(TreeEngine { extras: true }.run(&serde_json::from_value(case.clone()).map_err(|e| e.to_string())?).failure),
         ("C14", "scriptgen") => Ok(ScriptEngine.run(&serde_json::from_value(case.clone()).map_err(|e| e.to_string())?).failure),
         ("C15", "hexenum") => Ok(HexEngine.replay(case)),
         ("C16", "concatenum") => Ok(ConcatEngine { tolerate: Default::default() }.replay(case)),
